@@ -59,6 +59,10 @@ Read(k, n, got) ==
   /\ views' = [views EXCEPT ![k].c = @ + got]
   /\ last' = [op |-> "read", from |-> views[k].c, to |-> views[k].c + got]
   /\ reads' = reads + 1
+(* Read::read_exact(buf of n) : all n bytes or an error, never a part (n <= what is left: the scenarios ask for no more) *)
+ReadExact(k, n, got) == n <= SizeLeft(views[k]) /\ got = n /\ Read(k, n, got)
+(* Read::read_to_end(vec) : everything that is left is *appended* to vec, what vec held before is kept *)
+ReadToEnd(k, got) == got = SizeLeft(views[k]) /\ Read(k, got, got)
 (* get_slice(off, n) on a region or slice *)
 GetSlice(k, off, n) ==
   /\ views[k].kind \in {"region", "slice"} /\ reads < MaxReads
@@ -70,6 +74,8 @@ Next == \E k \in 1..Len(views) :
           \/ \E off \in 0..N, size \in 0..N : Cut(k, off, size)
           \/ AsSlice(k) \/ ToRegion(k) \/ ToStream(k) \/ IntoStream(k)
           \/ \E n \in ReadSizes : \E got \in 0..n : Read(k, n, got)
+          \/ \E n \in ReadSizes : ReadExact(k, n, n)
+          \/ ReadToEnd(k, SizeLeft(views[k]))
           \/ \E off \in 0..N, n \in ReadSizes : GetSlice(k, off, n)
 Spec == Init /\ [][Next]_vars
 
